@@ -304,6 +304,16 @@ func (c *channelInstance) verifyAndDecrypt(m *MessageChunk, r []byte) ([]byte, e
 
 	var paddingLength int
 	if c.sc.cfg.SecurityMode == ua.MessageSecurityModeSignAndEncrypt || isAsymmetric {
+		// The padding size is read from the end of the payload, which the peer
+		// controls: make sure the size byte(s) and the padding they announce lie
+		// within the payload before slicing.
+		paddingSizeBytes := 1
+		if c.algo.SignatureLength() > 256 {
+			paddingSizeBytes = 2
+		}
+		if len(messageToVerify)-headerLength < paddingSizeBytes {
+			return nil, ua.StatusBadSecurityChecksFailed
+		}
 		paddingLength = int(messageToVerify[len(messageToVerify)-1])
 		if c.algo.SignatureLength() > 256 {
 			paddingLength <<= 8
@@ -311,6 +321,9 @@ func (c *channelInstance) verifyAndDecrypt(m *MessageChunk, r []byte) ([]byte, e
 			paddingLength += 1
 		}
 		paddingLength += 1
+		if paddingLength > len(messageToVerify)-headerLength {
+			return nil, ua.StatusBadSecurityChecksFailed
+		}
 	}
 
 	b = messageToVerify[headerLength : len(messageToVerify)-paddingLength]
